@@ -86,7 +86,7 @@ private:
 template <typename Func, typename... BoundArgs>
 constexpr auto bind_front(Func&& func, BoundArgs&&... boundArgs)
 {
-    return detail::bind_front_t<decay_t<Func>, unwrap_ref_decay_t<BoundArgs>...>{
+    return detail::bind_front_t<decay_t<Func>, decay_t<BoundArgs>...>{
         etl::forward<Func>(func),
         etl::forward<BoundArgs>(boundArgs)...
     };
